@@ -178,6 +178,11 @@ do_codec(char * l)
 				in = malloc(inlen ? inlen : 1);
 				memcpy(in, ser, inlen);
 				if (pos >= 0 && (size_t)pos < inlen) in[pos] = (uint8_t)val;
+				if (pos == -2 && inlen >= 2 * sizeof(int) + sizeof(socklen_t)) {
+					/* a cut that is self-consistent: the length field says what is there */
+					socklen_t nl = (socklen_t)(inlen - 2 * sizeof(int) - sizeof(socklen_t));
+					memcpy(in + 2 * sizeof(int), &nl, sizeof(socklen_t));
+				}
 				sa = sock_addr_deserialize(in, inlen);
 				vt_begin("sd"); vt_int("len", (long long)inlen); vt_bool("null", sa == NULL);
 				if (sa != NULL) {
